@@ -113,7 +113,8 @@ fn dev_label(r: &Rendered, d: &Dev) -> String {
             format!("{}|{}|{}", before, name, kind(*i))
         }
         Dev::Flip(i) => format!("case:{}", kind(*i)),
-        Dev::Sep(i, _) => format!("{}|same-line|{}", if *i == 0 { "bof".to_string() } else { kind(*i - 1) }, kind(*i)),
+        Dev::Sep(i, s) if s.trim().is_empty() => format!("{}|same-line|{}", if *i == 0 { "bof".to_string() } else { kind(*i - 1) }, kind(*i)),
+        Dev::Sep(i, s) => format!("{}|{}-in-place-of-separator|{}", kind(*i - 1), if s.starts_with("//") { "line-comment" } else { "block-comment" }, kind(*i)),
     }
 }
 
@@ -138,6 +139,18 @@ fn single_devs(r: &Rendered) -> Vec<Dev> {
         }
         if r.joinable(i) {
             out.push(Dev::Sep(i, " ".to_string()));
+        }
+        // a comment *in place of* the blank or the line break that separates two tokens (no blank on either side of
+        // it): `lda/* c */#1`, `rts// c` + line break
+        // (not behind a `/`: `1 /` + `/* c */` would read as the line comment `//* c */`)
+        if i > 0 && t.slot != Slot::None && !r.terms[i - 1].text.ends_with('/') {
+            if t.sep == " " {
+                out.push(Dev::Sep(i, "/* c */".to_string()));
+            }
+            if t.sep == "\n" && t.slot == Slot::Mws {
+                out.push(Dev::Sep(i, "// c\n".to_string()));
+                out.push(Dev::Sep(i, "/* c */\n".to_string()));
+            }
         }
     }
     out
